@@ -630,7 +630,13 @@ func (d *BlobberAllocation) challengeRewardOnFinalization(timeUnit time.Duration
 
 	move := currency.Coin((dtu / rdtu) * float64(d.ChallengePoolIntegralValue))
 
-	if alloc.Stats.UsedSize > 0 && cp.Balance > 0 && passRate > 0 && d.Stats != nil {
+	// what a stake pool does not take stays in the challenge pool and goes back to the write pool
+	takes, err := sp.takesRewards()
+	if err != nil {
+		return 0, fmt.Errorf("blobber reward failed: %v", err)
+	}
+
+	if takes && alloc.Stats.UsedSize > 0 && cp.Balance > 0 && passRate > 0 && d.Stats != nil {
 		reward, err := currency.MultFloat64(move, passRate)
 		if err != nil {
 			return payment, err
@@ -725,11 +731,11 @@ func (d *BlobberAllocation) payCancellationCharge(alloc *storageAllocationBase, 
 
 	// a killed or under-staked stake pool takes no rewards (DistributeRewards moves nothing),
 	// so nothing is charged to the write pool for it either
-	stake, err := sp.TotalStake()
+	takes, err := sp.takesRewards()
 	if err != nil {
 		return 0, fmt.Errorf("failed to get stake, blobber: %s, err: %v", d.BlobberID, err)
 	}
-	if sp.IsDead() || stake < sp.GetSettings().MinStake {
+	if !takes {
 		return 0, nil
 	}
 
@@ -739,6 +745,16 @@ func (d *BlobberAllocation) payCancellationCharge(alloc *storageAllocationBase, 
 	}
 
 	return reward, nil
+}
+
+// takesRewards reports whether StakePool.DistributeRewards credits anything to this
+// stake pool: a killed pool and a pool staked below its min_stake take nothing.
+func (sp *stakePool) takesRewards() (bool, error) {
+	stake, err := sp.TotalStake()
+	if err != nil {
+		return false, err
+	}
+	return !sp.IsDead() && stake >= sp.GetSettings().MinStake, nil
 }
 
 func (d *BlobberAllocation) Offer() currency.Coin {
